@@ -1,4 +1,5 @@
 """rules shared between properties (each is reported under the rule id the caller passes)."""
+import re
 from mirlib import *
 
 TYPE = 'object::Type'
@@ -342,4 +343,98 @@ def check_float_casts(ctx, rep, rule):
                         if c == val and f[0] in ('Lt', 'Le'):
                             lo = True
                 rep.ob(lo and hi, rule, key, 'float->int cast#%d' % ordn, 'the value is bounded below and above by dominating comparisons that came out TRUE (a false `<=` does not exclude NaN) before the saturating cast (lower %s, upper %s)' % (lo, hi), span_loc(st['span']))
+                if key.startswith('builtins::'):
+                    # the guard must not reject a float whose truncation is a representable integer: the comparisons against
+                    # constants are folded in IEEE double arithmetic (what the compiled code computes) and evaluated on the two
+                    # extreme floats that still convert: the smallest f with trunc(f) >= MIN and the largest with trunc(f) <= MAX
+                    LO, HI = int_range(F)
+                    need_lo, need_hi = extreme_floats(LO, HI)
+                    rejected = []
+                    nfold = 0
+                    for f in facts_:
+                        if f[0] not in ('Gt', 'Ge', 'Lt', 'Le'):
+                            continue
+                        a, c = psc.strip(f[1]), psc.strip(f[2])
+                        if a == val:
+                            cst, op = fold_f64(f[2]), f[0]
+                        elif c == val:
+                            cst, op = fold_f64(f[1]), {'Gt': 'Lt', 'Ge': 'Le', 'Lt': 'Gt', 'Le': 'Ge'}[f[0]]
+                        else:
+                            continue
+                        if cst is None:
+                            continue
+                        nfold += 1
+                        for v in (need_lo, need_hi):
+                            holds = {'Gt': v > cst, 'Ge': v >= cst, 'Lt': v < cst, 'Le': v <= cst}[op]
+                            if not holds:
+                                rejected.append('%r (truncates to %d, which is an integer of the language) fails `value %s %r`' % (v, int(v), {'Gt': '>', 'Ge': '>=', 'Lt': '<', 'Le': '<='}[op], cst))
+                    rep.ob(not rejected, rule, key, 'float->int guard#%d accepts every convertible float' % ordn,
+                           'the range guard, with its constants folded in double arithmetic, lets through the extreme floats whose truncation still fits [%d, %d] (%d comparisons against constants folded)%s' % (
+                               LO, HI, nfold, ': ' + rejected[0] if rejected else ''), span_loc(st['span']))
     rep.count('float_to_int_casts', n)
+
+
+def int_range(F):
+    SH = 3
+    asint = ret_exprs(F, F.fn('object::Object::as_int'))
+    if asint and is_binop(asint[0][1], 'Shr') and int_of(asint[0][1][3]) is not None:
+        SH = int_of(asint[0][1][3])
+    return -(1 << (W - 1 - SH)), (1 << (W - 1 - SH)) - 1
+
+
+def extreme_floats(LO, HI):
+    import math
+    lo = float(LO)
+    while int(lo) < LO:
+        lo = math.nextafter(lo, math.inf)
+    while int(math.nextafter(lo, -math.inf)) >= LO:
+        lo = math.nextafter(lo, -math.inf)
+    hi = float(HI)
+    while int(hi) > HI:
+        hi = math.nextafter(hi, -math.inf)
+    while int(math.nextafter(hi, math.inf)) <= HI:
+        hi = math.nextafter(hi, math.inf)
+    return lo, hi
+
+
+def fold_f64(v, depth=0):
+    """value of a constant f64 expression of the psc symbolic form (integer constants converted, + - * / applied in IEEE
+    double arithmetic: Python floats are the same doubles), None when it is not a constant"""
+    import struct
+    if not isinstance(v, tuple) or not v or depth > 10:
+        return None
+    if v[0] == 'int':
+        return v[1]
+    if v[0] == 'const' and isinstance(v[1], str):
+        m = re.fullmatch(r'(-?[0-9.eE+-]+|-?inf|NaN)f64', v[1].replace('const ', '').replace('_', ''))
+        if m:
+            try:
+                return float(m.group(1))
+            except ValueError:
+                return None
+        return None
+    if v[0] == 'cast':
+        x = fold_f64(v[1], depth + 1)
+        if x is None:
+            return None
+        if v[2] in ('f64',):
+            return float(x)
+        if v[2] in ('f32',):
+            return struct.unpack('f', struct.pack('f', float(x)))[0]
+        if isinstance(x, int):
+            return x
+        return None
+    if v[0] == 'ref':
+        return fold_f64(v[1], depth + 1)
+    if v[0] == 'binop' and v[1] in ('Add', 'Sub', 'Mul', 'Div'):
+        a, b = fold_f64(v[2], depth + 1), fold_f64(v[3], depth + 1)
+        if a is None or b is None or not (isinstance(a, float) and isinstance(b, float)):
+            return None
+        try:
+            return {'Add': a + b, 'Sub': a - b, 'Mul': a * b, 'Div': a / b}[v[1]]
+        except ZeroDivisionError:
+            return None
+    if v[0] == 'unop' and v[1] == 'Neg':
+        x = fold_f64(v[2], depth + 1)
+        return None if x is None else -x
+    return None
